@@ -109,7 +109,7 @@ func triggerObjectScenario(r *Run) {
 	model := newRefTrigger(cfg)
 	wm := 0
 	var hist strings.Builder
-	body := t.Block(4*maxSteps + 4)
+	body := t.Block(8*maxSteps + 8)
 	steps := 0
 	check := func(when string) bool {
 		got := map[string]int{}
@@ -125,7 +125,7 @@ func triggerObjectScenario(r *Run) {
 		return true
 	}
 	for i := 0; i < maxSteps; i++ {
-		sb := body.Block(4)
+		sb := body.Block(8)
 		if sb.Draw(maxSteps+1) == 0 {
 			break
 		}
@@ -210,7 +210,7 @@ func triggerNodeScenario(r *Run) {
 	}
 	watermarked := cfg.watermark || hdr.Chance(1, 2)
 	attrs := map[string]string{"level": "node", "trigger": cfg.Kinds()}
-	script := GenChangelog(t.Block(8*maxSteps+10), ChangelogCfg{MaxSteps: maxSteps, Watermarked: watermarked, Retractions: true, Dups: true,
+	script := GenChangelog(t.Block(stepBlock*maxSteps+10), ChangelogCfg{MaxSteps: maxSteps, Watermarked: watermarked, Retractions: true, Dups: true,
 		Row: opRow, FinalWM: true, RetractSameTime: true})
 	r.Log("group by (a, tk) trigger={%s} watermarked=%v", cfg, watermarked)
 	r.Log("in: %s", ScriptString(script))
